@@ -373,9 +373,18 @@ def newCls (key : String) (k : ClsId) (bases : List ClsId) (f : FnId) (mro : Lis
 def withCls (w : World) (c : Cls) : World :=
   { w with classes := w.classes ++ [c], hookCalls := w.hookCalls ++ [c.id] }
 
+/-- a function that no base has as its member `key` gets the contracts of all the bases: nothing is filtered out -/
+theorem basesFor_eq_self (w : World) (bases : List ClsId) (key : String) (f : FnId)
+    (h : ∀ b ∈ bases, (lookupMember w b key).bind Member.asFunc ≠ some f) : basesFor w bases key f = bases := by
+  unfold basesFor
+  apply List.filter_eq_self.mpr
+  intro b hb
+  simpa using h b hb
+
 theorem defineClass_chain (w w2 : World) (k : ClsId) (bases : List ClsId) (key : String) (f : FnId)
     (mro : List ClsId) (hkey : key ≠ "__init__" ∧ key ≠ "__new__")
     (hinv : ∀ b d, lookupInv w b d = none)
+    (hbf : basesFor w bases key f = bases)
     (hdec : decorateOne w key f true (collectBases w bases key) = .ok w2)
     (hmro : computeMro w2 k bases = some mro)
     (hno : lookupInv (withCls w2 (newCls key k bases f mro)) k .all = none) :
@@ -386,7 +395,7 @@ theorem defineClass_chain (w w2 : World) (k : ClsId) (bases : List ClsId) (key :
   simp only [withCls, newCls] at hno'
   unfold defineClass
   simp only [Bool.not_true, Bool.false_eq_true, if_false, collapseInv_none _ _ _ (fun b => hinv b _),
-    List.foldlM_cons, List.foldlM_nil, decorateMember, hk, hdec, bind, Except.bind, pure, Except.pure, hmro,
+    List.foldlM_cons, List.foldlM_nil, decorateMember, hk, hbf, hdec, bind, Except.bind, pure, Except.pure, hmro,
     if_true, List.map_cons, List.map_nil, hno', Option.isSome_none, withCls, newCls]
 
 /-! ### cells of `declW` and of `installed` -/
@@ -543,8 +552,22 @@ theorem chain_step (key : String) (hkey : key ≠ "__init__" ∧ key ≠ "__new_
   have hcls2 : ClassInv key w2 done := hcls1.of_classes fr2.classes
   have hmro := hcls2.computeMro_eq
   have hcls3 := hcls2.snoc (baseOf done.length).toList l
+  have hbf : basesFor (declW w l.f l.pre l.posts) (baseOf done.length).toList key l.f =
+      (baseOf done.length).toList := by
+    apply basesFor_eq_self
+    intro b hb
+    cases hd : done.length with
+    | zero => rw [hd] at hb; cases hb
+    | succ m =>
+      rw [hd] at hb
+      simp only [baseOf, Option.toList, List.mem_singleton] at hb
+      subst hb
+      have hm : m < done.length := by omega
+      rw [hcls1.member_eq m hm]
+      intro e
+      exact hne m hm (Option.some.inj e)
   have hdef := defineClass_chain (declW w l.f l.pre l.posts) w2 (done.length + 1) (baseOf done.length).toList
-    key l.f (desc (done.length + 1)) hkey (fun b d => hcls1.lookupInv_none b d) hdec hmro
+    key l.f (desc (done.length + 1)) hkey (fun b d => hcls1.lookupInv_none b d) hbf hdec hmro
     (hcls3.lookupInv_none _ _)
   refine ⟨_, hdef, hcls3, ?_, ?_⟩
   · intro f hf
